@@ -287,3 +287,51 @@ pub open spec fn apply_op(op: Operator, l: Data, r: Data) -> Data {
 pub open spec fn op_binary(op: Operator) -> bool {
     !(op is Assign) && !(op is AssignUndefined) && !(op is Not)
 }
+
+/// R19: `val.lock()`: the guard gives read access to the value in val's cell (blocking and poisoning are not modelled:
+/// assumption A1; lock discipline is C11's subject and covered by the bounded replay only)
+#[verifier::external_body]
+pub struct VerifGuard {
+    _p: (),
+}
+
+impl VerifGuard {
+    pub uninterp spec fn value(&self) -> Data;
+
+    #[verifier::external_body]
+    pub fn deref(&self) -> (r: &Data)
+        ensures
+            *r == self.value(),
+    {
+        unimplemented!()
+    }
+}
+
+#[verifier::external_body]
+pub struct VerifPoison {
+    _p: (),
+}
+
+impl VerifPoison {
+    #[verifier::external_body]
+    pub fn to_string(&self) -> (r: String) {
+        unimplemented!()
+    }
+}
+
+#[verifier::external_body]
+pub fn verif_lock(context: &GlobalDataLock, v: &DataArc) -> (r: Result<VerifGuard, VerifPoison>)
+    requires
+        context.cells().contains_key(v.cell()),
+    ensures
+        r is Ok,
+        r->Ok_0.value() == context.cells()[v.cell()],
+{
+    unimplemented!()
+}
+
+/// `"literal".to_string()`
+#[verifier::external_body]
+pub fn verif_to_string(s: &str) -> (r: String) {
+    s.to_string()
+}
